@@ -20,13 +20,18 @@ TIME_BUDGET = {"quick": 90, "thorough": 900}
 FLOORS = {"quick": {"pairs": 800, "steps_compared": 3000, "bytes_compared": 1000000, "pairs_with_exception": 150, "tcp_pairs": 2, "distinct": 500},
           "thorough": {"pairs": 15000, "steps_compared": 60000, "pairs_with_exception": 3000, "tcp_pairs": 8}}
 
-PERTS = ["none", "none", "fault", "stall", "cap", "corrupt", "auth", "disconnected", "eofstall", "syncfail", "large"]
+PERTS = ["none", "none", "fault", "stall", "cap", "corrupt", "auth", "disconnected", "eofstall", "syncfail", "large", "slowlink", "longpath"]
 
 
 def gen_cases(tier, seed):
     n = 1000 if tier == "quick" else 18000
     for i in range(n):
         yield {"kind": "pair", "pert": PERTS[i % len(PERTS)], "seed": "%d:%d" % (seed, i)}
+    # exact-fit sweep: the two twins must cut the same FileSync data into the same WRTE packets at every buffer fill level
+    for md in ((4096, 4097) if tier == "quick" else (4096, 4097, 5000, 8192, 65536)):
+        chunk = min(65536, md // 2)
+        for total in range(2 * chunk - 70, 2 * chunk + 12):
+            yield {"kind": "pair", "pert": "fit", "seed": "%d:fit%d-%d" % (seed, md, total), "maxdata": md, "size": total}
     for j in range(2 if tier == "quick" else 10):
         yield {"kind": "tcp", "seed": "%d:t%d" % (seed, j), "maxdata": [4096, 65536, 1024 * 1024][j % 3]}
     for j in range(2 if tier == "quick" else 10):
@@ -53,6 +58,8 @@ def one_side(impl, case, sc, pert):
     if pert == "cap":
         cap = rng.choice([1, 24, 25, 100, 4095])
         kw["writecap"] = cap
+    if pert == "slowlink":
+        kw["call_cost"] = rng.choice([0.01, 0.05])     # virtual seconds per transport call: whole-command limits (timeout_s) expire while data still flows
     sess = gen.make_session(impl, dims, case["seed"], connect=False, budget=300000, **kw)
     r = scen.Runner(sess, sc)
     rec = {"outs": [], "bytes": None, "avail": []}
@@ -143,6 +150,14 @@ def one_side(impl, case, sc, pert):
 
 
 def run_step_with(r, i, step, pert):
+    if pert == "slowlink" and step["op"] in ("shell", "exec_out"):
+        sess = r.sess
+        op = step["op"]
+        r.sim.scripts[(b"exec:" if op == "exec_out" else b"shell:") + step["cmd"].encode()] = [b"chunk-%d" % k for k in range(40)]
+        return sess.call(op, step["cmd"], decode=step["decode"], timeout_s=[0.3, 1.0, 50.0][i % 3], read_timeout_s=20.0), []
+    if pert == "slowlink" and step["op"] == "root":
+        r.sim.scripts[b"root:"] = [b"r%d" % k for k in range(30)]
+        return r.sess.call("root", timeout_s=[0.2, 40.0][i % 2]), []
     if pert in ("stall", "eofstall"):
         # pass small timeouts straight to the API (the Runner's helpers use defaults), only for the simple ops
         sess = r.sess
@@ -392,6 +407,20 @@ def run_case(case):
     for st in sc["steps"]:
         if st["op"] == "push" and st.get("mtime") == 0:
             st["mtime"] = 4
+    if pert == "fit":
+        sc = {"dims": {"maxdata": case["maxdata"], "remote": "random", "id_start": 0, "frag": "whole", "empty_rate": 0.0, "noise": []},
+              "steps": [{"op": "push", "path": rng.choice(["/d", "/data", "/sdcard/x.bin"]), "size": case["size"], "seed": case["seed"], "src": "bytesio", "mode": 0o100644, "mtime": 6, "cb": None}]}
+        pert = "none"
+    if pert == "longpath":
+        # device paths about as long as maxdata: the request itself fills the send buffer
+        md = sc["dims"]["maxdata"] = rng.choice([4096, 4097, 5000])
+        for st in sc["steps"]:
+            if "path" in st:
+                n = md - rng.choice([40, 24, 21, 20, 17, 16, 12, 9, 8, 7])
+                st["path"] = "/" + "p" * (n - 1)
+                if st["op"] == "pull":
+                    st["cb"] = None
+        pert = "none"
     if pert == "large":
         for st in sc["steps"]:
             if st["op"] in ("shell", "exec_out", "streaming_shell"):
